@@ -4,7 +4,7 @@ sys.path.insert(0, '/verif/lib'); sys.path.insert(0, '/verif/contracts')
 import assemble, registry
 W = os.environ.get('W', '/tmp/w')
 repo = os.environ.get('REPO', '/repo')
-spec = open('/verif/spec/prelude.rs').read()
+spec = open('/verif/spec/prelude.rs').read() + ''.join(open('/verif/spec/' + f).read() for f in sorted(os.listdir('/verif/spec')) if f.endswith('.rs') and f != 'prelude.rs')
 asm = assemble.build(os.path.join(repo, 'src'), registry.apply, spec)
 open(os.path.join(W, 'ais_v.rs'), 'w').write(asm.text)
 mods = sys.argv[1:]
